@@ -575,6 +575,12 @@ func RunC14(c *core.Ctx) {
 			recs = append(recs, r...)
 		}
 	}
+	for h := 0; h < c.Pick(10, 60); h++ {
+		// one ordinary resource per first letter of the key: values move from one resource to another
+		if r := queryHandlerHistory(c, rng, 3*h+2); r != nil {
+			recs = append(recs, r...)
+		}
+	}
 	for h := 0; h < c.Pick(3, 20); h++ {
 		if r := eventListHistory(c, rng, h); r != nil {
 			recs = append(recs, r...)
@@ -859,33 +865,59 @@ func queryHandlerHistory(c *core.Ctx, rng *rand.Rand, h int) []interface{} {
 	s.SetLogger(nil)
 	s.SetWorkerCount(1)
 	s.SetQueryEventDuration(20 * time.Millisecond)
-	isQuery := h%2 == 0
+	isQuery := h%3 == 0
+	param := h%3 == 2 // an ordinary resource per first letter of the key: test.by.a, test.by.b, test.by.c
 	qh := store.QueryHandler{QueryStore: w.qs, Transformer: store.IDToRIDCollectionTransformer(func(id string) string { return "test.item." + id })}
 	fixed := iquery{prefix: []string{"", "a"}[h%2], filter: "none", limit: -1}
-	if isQuery {
+	pattern := "list"
+	switch {
+	case isQuery:
 		qh.QueryRequestHandler = func(rname string, pp map[string]string, q url.Values) (url.Values, string, error) {
 			iq := iquery{prefix: q.Get("p"), filter: "none", limit: -1}
 			return iq.values(), "p=" + q.Get("p"), nil
 		}
-	} else {
+	case param:
+		pattern = "by.$first"
+		qh.RequestHandler = func(rname string, pp map[string]string) (url.Values, error) {
+			return iquery{prefix: pp["first"], filter: "none", limit: -1}.values(), nil
+		}
+		qh.AffectedResources = func(p res.Pattern, qc store.QueryChange) []string {
+			var rids []string
+			for _, v := range []interface{}{qc.Before(), qc.After()} {
+				if iv, ok := v.(ival); ok && iv.Indexed && len(iv.Key) > 0 && iv.Key[0] >= 'a' && iv.Key[0] <= 'c' {
+					rid := string(p.ReplaceTag("first", string(iv.Key[:1])))
+					if len(rids) == 0 || rids[0] != rid {
+						rids = append(rids, rid)
+					}
+				}
+			}
+			return rids
+		}
+	default:
 		qh.RequestHandler = func(rname string, pp map[string]string) (url.Values, error) { return fixed.values(), nil }
 	}
-	s.Handle("list", res.Collection, qh)
+	s.Handle(pattern, res.Collection, qh)
 	hs, err := serve(s)
 	if err != nil {
 		return nil
 	}
 	defer hs.close()
 	var out []interface{}
-	rid := "test.list"
-	getRid := rid
+	rids := []string{"test.list"}
+	getRids := []string{"test.list"}
 	if isQuery {
-		getRid = rid + "?p=" + fixed.prefix
+		getRids = []string{"test.list?p=" + fixed.prefix}
+	}
+	if param {
+		rids = []string{"test.by.a", "test.by.b", "test.by.c"}
+		getRids = rids
 	}
 	for step := 0; step < 6; step++ {
-		before, err := hs.get(getRid)
-		if err != nil {
-			return out
+		before := make([]rec, len(rids))
+		for i := range rids {
+			if before[i], err = hs.get(getRids[i]); err != nil {
+				return out
+			}
 		}
 		from := len(hs.conn.Pubs())
 		id, key, del := randMutation(w, rng)
@@ -894,23 +926,25 @@ func queryHandlerHistory(c *core.Ctx, rng *rand.Rand, h int) []interface{} {
 		}
 		w.qs.Flush()
 		time.Sleep(2 * time.Millisecond)
-		after, err := hs.get(getRid)
-		if err != nil {
-			return out
-		}
-		changed := fmt.Sprint(before["c"]) != fmt.Sprint(after["c"])
-		notified := false
-		for _, m := range hs.conn.Pubs()[from:] {
-			if m.Subject == "system.reset" && strings.Contains(string(m.Data), rid) {
-				notified = true
-			}
-			if m.Subject == "event."+rid+".query" {
-				notified = true
-			}
-		}
 		problems := []string{}
-		if changed && !notified {
-			problems = append(problems, fmt.Sprintf("result of %s changed from %v to %v but neither system.reset nor a query event was published", getRid, before["c"], after["c"]))
+		for i, rid := range rids {
+			after, err := hs.get(getRids[i])
+			if err != nil {
+				return out
+			}
+			changed := fmt.Sprint(before[i]["c"]) != fmt.Sprint(after["c"])
+			notified := false
+			for _, m := range hs.conn.Pubs()[from:] {
+				if m.Subject == "system.reset" && strings.Contains(string(m.Data), `"`+rid+`"`) {
+					notified = true
+				}
+				if m.Subject == "event."+rid+".query" {
+					notified = true
+				}
+			}
+			if changed && !notified {
+				problems = append(problems, fmt.Sprintf("result of %s changed from %v to %v but neither system.reset nor a query event was published", getRids[i], before[i]["c"], after["c"]))
+			}
 		}
 		out = append(out, rec{"kind": "callbacks", "problems": problems, "dbg": fmt.Sprintf("query handler history %d step %d (query resource=%v)", h, step, isQuery)})
 	}
